@@ -34,8 +34,8 @@ def run(rep, work, tier, seed):
         mc = dict(NTasks=3, MaxDepth=3, MaxScopes=4, MaxOps=8, Bug="none")
         conf = dict(NTasks=3, MaxDepth=3, MaxScopes=3, MaxOps=5, Bug="none")
     else:
-        mc = dict(NTasks=4, MaxDepth=3, MaxScopes=4, MaxOps=9, Bug="none")
-        conf = dict(NTasks=3, MaxDepth=3, MaxScopes=4, MaxOps=7, Bug="none")
+        mc = dict(NTasks=4, MaxDepth=3, MaxScopes=4, MaxOps=8, Bug="none")
+        conf = dict(NTasks=3, MaxDepth=3, MaxScopes=4, MaxOps=6, Bug="none")
     rep.extra["constants"] = dict(model=mc, conformance=conf)
     leg_m(rep, work, SPEC, f"mc_{tier}", cfg_text(mc, spec="Spec", invariants=INVS, properties=PROPS),
           expect_actions=["Cancel", "CtxCancel", "Check", "Leave", "Fail"], timeout=3000)
